@@ -183,6 +183,7 @@ struct Task
 	bool auto_on = false, update_requested = false ;
 	bool raw_read_done = false ;		// a raw read bypassed the decoder on this handle (matters for delta codecs)
 	SimFileP emb_file ;
+	std::vector<uint8_t> emb_before ;		// container bytes before an embedded read/write open
 	bool done () const { return !ops || pc >= ops->size () ; }
 } ;
 
@@ -319,19 +320,20 @@ struct Exec
 			SimFileP cf = os.file ("/sim/cwd/" + t.store + ".emb", true) ;
 			cf->data.clear () ;
 			for (int64_t b = 0 ; b < k ; b++) cf->data.push_back ((uint8_t) mix3 (key, 0xe3b, (uint64_t) b)) ;
-			if (t.mode == SFM_READ)
+			if (t.mode == SFM_READ || t.mode == SFM_RDWR)
 			{	cf->data.insert (cf->data.end (), file->data.begin (), file->data.end ()) ;
 				for (int64_t b = 0 ; b < tl ; b++) cf->data.push_back ((uint8_t) mix3 (key, 0xe3c, (uint64_t) b)) ;
 			}
 			cf->min_read = cf->max_read_end = cf->min_write = cf->max_write_end = -1 ;
 			int64_t wt = 0 ;
-			if (t.mode != SFM_READ)
+			if (t.mode == SFM_WRITE)
 			{	// write: existing bytes may also follow the descriptor position (emb_wt of them); the new sound file belongs after
 				// everything that is already in the container, whatever the position of the descriptor
 				wt = op.geti ("emb_wt", 0) ;
 				for (int64_t b = 0 ; b < wt ; b++) cf->data.push_back ((uint8_t) mix3 (key, 0xe3b, (uint64_t) (k + b))) ;
 			}
 			t.emb_k = k + wt ; t.emb_len = (int64_t) file->data.size () ; t.emb_file = cf ;
+			t.emb_before.clear () ; if (t.mode == SFM_RDWR) t.emb_before = cf->data ;
 			t.fd = os.open_fd (cf, t.mode == SFM_READ ? O_RDONLY : O_RDWR, false) ;
 			os.fds [t.fd].off = k ;
 			t.close_desc = op.geti ("close_desc", 1) != 0 ;
@@ -383,6 +385,9 @@ struct Exec
 			{	check_fd_ownership (t, true) ;
 				t.fd = -1 ;
 			}
+			// read/write on a sound file embedded at an offset is refused by the library: the refusal has to leave the container alone
+			if (t.emb_file && t.mode == SFM_RDWR && !t.faulted && t.emb_file->data != t.emb_before)
+				viol (t, "embed.prefix_touched", "refused_rdwr", "refused embedded read/write open changed bytes of the container") ;
 			t.emb_file = nullptr ; t.emb_k = -1 ;
 			if (expect == "ok" && !t.faulted && !m.corrupted)
 			{	std::string disc = t.mode == SFM_READ ? "read" : t.mode == SFM_WRITE ? "write" : "rdwr" ;
@@ -396,6 +401,9 @@ struct Exec
 			return ;
 		}
 		if (expect == "fail") viol (t, "open.should_fail", "-", "open succeeded on an input that must be refused") ;
+		// a successful open leaves no error behind, neither on the handle nor in the process-wide slot sf_error (NULL) reads
+		if (opts.strict && !t.faulted && sf_error (nullptr) != 0)
+		{	char eb [160] ; snprintf (eb, sizeof (eb), "successful open (%s) left sf_error (NULL) = %d", route.c_str (), sf_error (nullptr)) ; viol (t, "success.error", "open_global", eb) ; }
 		t.stop = false ;
 		t.pos_known = true ;
 		t.ref.clear () ;
@@ -480,6 +488,13 @@ struct Exec
 	{	if (!t.sf) { r.skipped = true ; return ; }
 		r.api = "close" ;
 		{ Digest dd = digest (t) ; if (dd.ok && t.mode != SFM_READ) sm [t.store].dataoffset = dd.v [DG_DATAOFFSET] ; }
+		if (t.mode != SFM_READ)
+		{	// the writer's own log says when the header buffer refused to grow (100 KiB cap): from then on header items are dropped
+			// silently. The history is recorded so that a profile can tell this known limit from anything else that goes wrong.
+			static char lg [20000] ; lg [0] = 0 ;
+			bool save = os.in_lib ; os.in_lib = true ; sf_command (t.sf, SFC_GET_LOG_INFO, lg, sizeof (lg)) ; os.in_lib = save ;
+			if (strstr (lg, "Request for header allocation of")) probe ("writer_header_allocation_denied") ;
+		}
 		os.begin_op (t.id, (int) t.pc, "sf_close", budget_for (t, 0)) ;
 		GUARD (t, r) ;
 		int rc = sf_close (t.sf) ;
@@ -504,7 +519,7 @@ struct Exec
 				if (touched && !t.faulted) viol (t, "embed.prefix_touched", "-", "embedded write changed bytes that precede the sound file in the container") ;
 				// the sound file is what follows the existing bytes
 				SimFileP f = store_file (t.store) ;
-				f->data.assign (cf.data.begin () + std::min<int64_t> (t.emb_k, (int64_t) cf.data.size ()), cf.data.end ()) ;
+				if (t.mode == SFM_WRITE) f->data.assign (cf.data.begin () + std::min<int64_t> (t.emb_k, (int64_t) cf.data.size ()), cf.data.end ()) ;
 			}
 			t.emb_file = nullptr ; t.emb_k = -1 ;
 		}
@@ -1485,7 +1500,24 @@ struct Exec
 						at += 12 + len ;
 					}
 				}
-				if (kind == "chunk_field" && !cks.empty () && e.geti ("size_field", 0))
+				if (kind == "chunk_field" && !cks.empty () && e.geti ("fmt_field", 0))
+				{	// a field of one of the chunks that describe the encoding (block sizes, channel counts, rates, frames per packet,
+					// table lengths): every one of them ends up in a division, an allocation or a loop bound somewhere
+					static const char *ids [] = { "fmt ", "COMM", "desc", "kuki", "pakt", "VHDR", "ds64", "fact", "chan", "SSND", "data" } ;
+					std::vector<const Ck *> hit ;
+					for (auto &c : cks) for (auto id : ids) if (c.hdr + 4 <= sz && !memcmp (&d [(size_t) c.hdr], id, 4)) hit.push_back (&c) ;
+					if (!hit.empty ())
+					{	// "primary": the first such chunk of the image (fmt / COMM / desc / VHDR come first)
+						const Ck &c = e.geti ("primary", 0) ? *hit [0] : *hit [(size_t) (e.geti ("chunk", 0) % (int64_t) hit.size ())] ;
+						int w = e.geti ("width", 2) >= 4 ? 4 : 2 ; int64_t val = e.geti ("val", 0) ;
+						int64_t span = std::max<int64_t> (2, std::min<int64_t> (c.len, 48)) ;
+						int64_t fo = 2 * (e.geti ("foff", 0) % (span / 2)) ;
+						bool be = fam != 2 ; if (e.geti ("swap", 0)) be = !be ;
+						for (int b = 0 ; b < w && c.pay + fo + b < sz ; b++) d [(size_t) (c.pay + fo + b)] = (uint8_t) (val >> (8 * (be ? w - 1 - b : b))) ;
+						probe ("corrupt:fmt_field") ;
+					}
+				}
+				else if (kind == "chunk_field" && !cks.empty () && e.geti ("size_field", 0))
 				{	// the length field of the chunk itself (CAF: the low word of its 64-bit length)
 					const Ck &c = cks [(size_t) (e.geti ("chunk", 0) % (int64_t) cks.size ())] ;
 					int64_t val = e.geti ("val", 0) ; bool be = fam != 2 ; int64_t at = fam == 4 ? c.hdr + 8 : c.hdr + 4 ;
@@ -1552,6 +1584,19 @@ struct Exec
 					(uint8_t) ((stated >> 21) & 0x7f), (uint8_t) ((stated >> 14) & 0x7f), (uint8_t) ((stated >> 7) & 0x7f), (uint8_t) (stated & 0x7f) } ;
 				for (int64_t b = 0 ; b < n ; b++) tag.push_back ((uint8_t) mix3 (key, 0x1d3 + k, (uint64_t) b)) ;
 				d.insert (d.begin (), tag.begin (), tag.end ()) ;
+			}
+			else if (kind == "au_annotation")
+			{	// AU: an annotation field between the fixed 24-byte header and the audio (legal; this library never writes one)
+				if (sz >= 24 && (!memcmp (d.data (), ".snd", 4) || !memcmp (d.data (), "dns.", 4)))
+				{	bool be = d [0] == '.' ;
+					uint32_t off = 0 ; for (int b = 0 ; b < 4 ; b++) off |= (uint32_t) d [4 + b] << (8 * (be ? 3 - b : b)) ;
+					int64_t n = e.geti ("len", 8) ;
+					if (off >= 24 && off <= (uint32_t) sz)
+					{	std::vector<uint8_t> note ; for (int64_t b = 0 ; b < n ; b++) note.push_back ((uint8_t) ('A' + mix3 (key, 0xa0 + k, (uint64_t) b) % 26)) ;
+						d.insert (d.begin () + off, note.begin (), note.end ()) ;
+						uint32_t noff = off + (uint32_t) n ; for (int b = 0 ; b < 4 ; b++) d [4 + b] = (uint8_t) (noff >> (8 * (be ? 3 - b : b))) ;
+					}
+				}
 			}
 			else if (kind == "wav_broken_fmt")
 			{	// PCM tag with a bit width that contradicts the block alignment (24 bits in 4-byte slots and relatives)
@@ -1727,7 +1772,7 @@ struct Exec
 			applicable = dd.ok && ch * raw_bw >= 2 && (kind == "raw_read_misaligned" ? (t.mode != SFM_WRITE && dd.v [DG_READ_CURRENT] < dd.v [DG_FRAMES]) : t.mode != SFM_READ) ;
 		}
 		else if (kind == "setmeta_invalid")
-		{	int var = (int) (op.geti ("n", 0) % 8) ;
+		{	int var = (int) (op.geti ("n", 0) % 9) ;
 			bool wavlike = t.fmt && (t.fmt->major == SF_FORMAT_WAV || t.fmt->major == SF_FORMAT_RF64 || (var >= 3 && t.fmt->major == SF_FORMAT_WAVEX)) ;
 			applicable = t.mode != SFM_READ && (var >= 6 || wavlike) ;
 		}
@@ -1766,7 +1811,7 @@ struct Exec
 		else if (kind == "raw_write_misaligned") ret = sf_write_raw (t.sf, buf, n * ch * raw_bw + 1) ;
 		else if (kind == "setmeta_invalid")
 		{	// metadata setters with a size that is too small, inconsistent with the size field inside, or beyond the library's limit
-			int var = (int) (op.geti ("n", 0) % 8) ;
+			int var = (int) (op.geti ("n", 0) % 9) ;
 			memset (buf, 0, bytes) ;
 			if (var < 3)
 			{	SF_CART_INFO *ci = (SF_CART_INFO *) buf ; size_t base = offsetof (SF_CART_INFO, tag_text) ;
@@ -1781,6 +1826,12 @@ struct Exec
 				int ds = var == 3 ? 100 : var == 4 ? (int) (base + 64) : (int) (base + 16384) ;
 				bi->coding_history_size = var == 3 ? 0 : var == 4 ? 1000 : 16384 ;
 				ret = sf_command (t.sf, SFC_SET_BROADCAST_INFO, buf, ds) ;
+			}
+			else if (var == 8)
+			{	// a cue list whose count does not fit the buffer by one to four bytes (exact-size block: reading behind it is an ASan report)
+				int k = 1 + (int) ((op.geti ("n", 0) / 9) % 4) ; size_t ds = 4 + 3 * sizeof (SF_CUE_POINT) - (size_t) k ;
+				uint8_t *cb = (uint8_t *) calloc (1, ds) ; uint32_t cnt = 3 ; memcpy (cb, &cnt, 4) ;
+				ret = sf_command (t.sf, SFC_SET_CUE, cb, (int) ds) ; free (cb) ;
 			}
 			else if (var == 6) ret = sf_command (t.sf, SFC_SET_INSTRUMENT, buf, (int) sizeof (SF_INSTRUMENT) - 1) ;
 			else ret = sf_command (t.sf, SFC_SET_CUE, buf, 2) ;
